@@ -17,8 +17,17 @@ Contracts: each function returns exactly the value of a spec function mirroring 
       evaluating the OTHER child: both parties arrive at the SAME key and the SAME control bit, and the output shares sum to zero;
   OFF the path (equal keys, equal control bits): they stay equal for both children and the output shares sum to zero
 
-- so by induction on the level the shares sum to beta_l on every prefix of the input and to zero everywhere else.  The induction over the
-level loops of Idpf::gen_with_random / eval_from_node (bitvec-indexed, cache-mediated) is NOT mechanised."""
+and, by induction on the level (theorem_idpf, spec level), the shares sum to beta_l on every prefix of the input and to zero everywhere else.
+
+The level loops themselves are under contract too: Idpf::gen_with_random (whole function: the public share holds, level by level, exactly
+the correction word of the construction - inner modes/parameter below the last level, leaf ones at the last -, the initial keys are the two
+random seeds, Err exactly when the number of inner values is not bits-1) and Idpf::eval_from_node (whole function: the output share of the
+last level of the prefix obtained by iterating the level step from the given node).  theorem_idpf_end_to_end composes them: what
+gen_with_random hands out and what both parties compute with eval_from_node from their root keys meet the IDPF specification for EVERY tree
+depth, input, value vector and prefix.  Abstracted (assumptions): IdpfInput is a bit string with len() and indexing (bitvec storage not
+modelled), IdpfCache::insert has no effect on the evaluation (cache transparency, i.e. Idpf::eval resuming from a cached node, is NOT
+decided), inner and leaf values are elements of one abstract additive field type, XofFixedKeyAes128Key::new / XofMode are opaque mode
+values determined by (domain separator, ctx, nonce)."""
 from fe_common import FE_PRELUDE
 from vunit import VUnit
 
@@ -278,4 +287,238 @@ ensures
        r == ev.out && *final(key) == ev.key && final(control_bit).0 == ev.t }),
 ''', before=[('let mut out', 'broadcast use axiom_fe_range;')])
     u.raw(THEOREM, 'level-theorem')
+    u.raw(PATH, 'tree-theorem')
+    u.raw(TREE_SHIMS, 'tree-shims')
+    II = ['impl<VI, VL> Idpf<VI, VL>']
+    MODES = [(r'XofFixedKeyAes128Key::new\(&\[EXTEND_DOMAIN_SEP, ctx\], nonce\)', 'mode_inner(0, ctx, nonce)', 1),
+             (r'XofFixedKeyAes128Key::new\(&\[CONVERT_DOMAIN_SEP, ctx\], nonce\)', 'mode_inner(1, ctx, nonce)', 1),
+             (r'&XofMode::Inner\(&extend_xof_fixed_key\)', '&extend_xof_fixed_key', '*'), (r'&XofMode::Inner\(&convert_xof_fixed_key\)', '&convert_xof_fixed_key', '*'),
+             (r'&XofMode::Leaf\(ctx, nonce\)', '&mode_leaf(ctx, nonce)', '*')]
+    u.item(F, II + ['fn gen_with_random'], ret='r', impl_header='impl Idpf', attrs='#[verifier::loop_isolation(false)]',
+           rewrites=MODES + [
+               (r'(?:pub\(crate\) )?fn gen_with_random<M: IntoIterator<Item = VI>>\(.*?\) -> Result<\(IdpfPublicShare<VI, VL>, \[Seed<16>; 2\]\), VdafError> \{',
+                'fn gen_with_random(&self, input: &IdpfInput, inner_values: &Vec<Fe>, leaf_value: Fe, ctx: &[u8], nonce: &[u8], random: &[Seed16; 2]) -> Result<(IdpfPublicShare, [Seed16; 2]), VdafError> {', 1),
+               (r'let initial_keys: \[Seed<16>; 2\] =\s*\[Seed::from_bytes\(random\[0\]\), Seed::from_bytes\(random\[1\]\)\];', 'let initial_keys: [Seed16; 2] = [random[0], random[1]];', 1),
+               (r'\[initial_keys\[0\]\.0, initial_keys\[1\]\.0\]', '[initial_keys[0], initial_keys[1]]', 1),
+               (r'let mut inner_correction_words = Vec::with_capacity', 'let mut inner_correction_words: Vec<IdpfCorrectionWord> = Vec::with_capacity', 1),
+               (r'for \(level, value\) in inner_values\.into_iter\(\)\.enumerate\(\) \{', 'for level in 0..inner_values.len() { let value = inner_values[level];', 1),      # E4c
+               (r'IdpfError::InvalidParameter\(\s*("[^"]*"\.to_string\(\)),?\s*\)\s*\.into\(\)', r'VdafError::Idpf(IdpfError::InvalidParameter(\1))', 2),
+               (r'generate_correction_word::<V[IL]>\(', 'generate_correction_word(', 2),
+               (r'Choice::from\(input\[level\] as u8\)', 'input.bit_choice(level)', 1), (r'Choice::from\(input\[bits - 1\] as u8\)', 'input.bit_choice(bits - 1)', 1)],
+           sig="""
+requires
+    input.bits().len() >= 1,          // derived: Idpf::gen refuses an empty input; Poplar1 has bits >= 1
+ensures
+    r is Ok <==> inner_values@.len() == input.bits().len() - 1,
+    // the public share holds, level by level, the correction word of the construction; the initial keys are the two random seeds
+    r is Ok ==> r->Ok_0.1[0] == random[0] && r->Ok_0.1[1] == random[1]
+        && share_of(r->Ok_0.0, modes_of(*self, ctx@, nonce@), random[0], random[1], input.bits(), inner_values@.push(leaf_value)),
+""", loops={0: """
+invariant
+    bits == input.bits().len(), level <= bits - 1 || level <= inner_values@.len(),
+    inner_correction_words@.len() == level, level <= bits - 1,
+    extend_xof_fixed_key == mode_inner_spec(0, ctx@, nonce@), convert_xof_fixed_key == mode_inner_spec(1, ctx@, nonce@),
+    ({ let s = gen_state(modes_of(*self, ctx@, nonce@), random[0], random[1], input.bits(), inner_values@.push(leaf_value), level as int);
+       keys[0] == s.k0 && keys[1] == s.k1 && control_bits[0].0 == s.t0 && control_bits[1].0 == s.t1 }),
+    forall|l: int| 0 <= l < level ==> cw_matches(#[trigger] inner_correction_words@[l], gen_cw(modes_of(*self, ctx@, nonce@), random[0], random[1], input.bits(), inner_values@.push(leaf_value), l)),
+"""}, before=[('inner_correction_words.push(', """
+    assert(inner_values@.push(leaf_value)[level as int] == inner_values@[level as int]);
+"""), ('let leaf_correction_word', """
+    assert(inner_values@.push(leaf_value)[bits - 1] == leaf_value);
+""")])
+    u.item(F, II + ['fn eval_from_node'], ret='r', impl_header='impl Idpf', attrs='#[verifier::loop_isolation(false)]',
+           rewrites=MODES + [
+               (r'fn eval_from_node\(\s*&self,.*?\) -> Result<IdpfOutputShare<VI, VL>, IdpfError> \{',
+                'fn eval_from_node(&self, is_leader: bool, public_share: &IdpfPublicShare, start_level: usize, mut key: Seed16, mut control_bit: Choice, prefix: &IdpfInput, ctx: &[u8], nonce: &[u8], cache: &mut Cache) -> Result<IdpfOutputShare, IdpfError> {', 1),
+               (r'let mut last_inner_output = None;', 'let mut last_inner_output: Option<Fe> = None;', 1),
+               # E4c: zip of the two tails with the level counter == index loop up to the shorter of the two
+               (r'for \(\(correction_word, input_bit\), level\) in public_share\.inner_correction_words\s*\[start_level\.\.\]\s*\.iter\(\)\s*\.zip\(prefix\[start_level\.\.\]\.iter\(\)\)\s*\.zip\(start_level\.\.\)\s*\{',
+                'let end_ = if public_share.inner_correction_words.len() <= prefix.len() { public_share.inner_correction_words.len() } else { prefix.len() }; for level in start_level..end_ { let correction_word = &public_share.inner_correction_words[level];', 1),
+               (r'Choice::from\(\*input_bit as u8\)', 'prefix.bit_choice(level)', 1),
+               (r'let cache_key = &prefix\[\.\.=level\];', '', 1),
+               (r'cache\.insert\(cache_key, &\(key, control_bit\.unwrap_u8\(\)\)\);', 'cache_insert(cache, prefix, level, &key, control_bit);', 1),
+               (r'Choice::from\(prefix\[bits - 1\] as u8\)', 'prefix.bit_choice(bits - 1)', 1)],
+           sig="""
+requires
+    // derived from Idpf::eval: a non-empty prefix no longer than the tree, started at a level above its end (slicing at start_level and the
+    // unwrap of the last inner output panic otherwise)
+    1 <= prefix.bits().len() <= public_share.inner_correction_words@.len() + 1,
+    public_share.inner_correction_words@.len() < usize::MAX,          // a Vec never holds usize::MAX elements
+    start_level <= public_share.inner_correction_words@.len(), start_level <= prefix.bits().len(),
+    prefix.bits().len() <= public_share.inner_correction_words@.len() ==> start_level < prefix.bits().len(),
+ensures
+    r is Ok,
+    // the output share of the LAST level of the prefix, computed by iterating the level step from (key, control_bit) at start_level
+    ({ let e = eval_from(modes_of(*self, ctx@, nonce@), *public_share, is_leader, key, control_bit.0, prefix.bits(), start_level as int, prefix.bits().len() as int);
+       match r->Ok_0 { IdpfOutputShare::Inner(v) => prefix.bits().len() <= public_share.inner_correction_words@.len() && v == e.out,
+                       IdpfOutputShare::Leaf(v) => prefix.bits().len() == public_share.inner_correction_words@.len() + 1 && v == e.out } }),
+""", ghost_before=[('let bits = public_share', 'let ghost key0 = key;\nlet ghost t0 = control_bit.0;')],
+           loops={0: """
+invariant
+    start_level <= level <= end_ || (end_ < start_level && level == start_level),
+    extend_xof_fixed_key == mode_inner_spec(0, ctx@, nonce@), convert_xof_fixed_key == mode_inner_spec(1, ctx@, nonce@),
+    ({ let e = eval_from(modes_of(*self, ctx@, nonce@), *public_share, is_leader, key0, t0, prefix.bits(), start_level as int, level as int);
+       key == e.key && control_bit.0 == e.t && (level > start_level ==> last_inner_output == Some(e.out)) }),
+"""})
+    u.raw(END2END, 'end-to-end-theorem')
     return u
+
+
+PATH = '''
+// ---- the whole tree: iterate the level along the input (key generation) and along a prefix (evaluation) ---------------------------------------
+// level l uses the inner modes/parameter for l < bits - 1 and the leaf ones for l == bits - 1
+pub struct Modes { pub xi: XofMode, pub ci: XofMode, pub vi: ValueParam, pub xl: XofMode, pub cl: XofMode, pub vl: ValueParam }
+pub open spec fn xm_at(m: Modes, bits: int, l: int) -> XofMode { if l < bits - 1 { m.xi } else { m.xl } }
+pub open spec fn cm_at(m: Modes, bits: int, l: int) -> XofMode { if l < bits - 1 { m.ci } else { m.cl } }
+pub open spec fn vp_at(m: Modes, bits: int, l: int) -> ValueParam { if l < bits - 1 { m.vi } else { m.vl } }
+pub struct GState { pub k0: Seed16, pub k1: Seed16, pub t0: bool, pub t1: bool }
+// key-generation state after n levels (keys/control bits on the input's path) - initial control bits are (0, 1)
+pub open spec fn gen_state(m: Modes, r0: Seed16, r1: Seed16, input: Seq<bool>, betas: Seq<Fe>, n: int) -> GState decreases n
+{
+    if n <= 0 { GState { k0: r0, k1: r1, t0: false, t1: true } } else {
+        let s = gen_state(m, r0, r1, input, betas, n - 1);
+        let g = gen_level(xm_at(m, input.len() as int, n - 1), cm_at(m, input.len() as int, n - 1), vp_at(m, input.len() as int, n - 1), s.k0, s.k1, s.t0, s.t1, input[n - 1], betas[n - 1]);
+        GState { k0: g.k0, k1: g.k1, t0: g.t0, t1: g.t1 }
+    }
+}
+// the public correction word of level l
+pub open spec fn gen_cw(m: Modes, r0: Seed16, r1: Seed16, input: Seq<bool>, betas: Seq<Fe>, l: int) -> GenOut {
+    let s = gen_state(m, r0, r1, input, betas, l);
+    gen_level(xm_at(m, input.len() as int, l), cm_at(m, input.len() as int, l), vp_at(m, input.len() as int, l), s.k0, s.k1, s.t0, s.t1, input[l], betas[l])
+}
+// one party's evaluation state after descending n levels along `prefix` (from its root key; the leader starts with control bit 0, the helper with 1)
+pub open spec fn eval_state(m: Modes, r0: Seed16, r1: Seed16, input: Seq<bool>, betas: Seq<Fe>, is_leader: bool, prefix: Seq<bool>, n: int) -> EvalOut decreases n
+{
+    if n <= 0 { EvalOut { key: if is_leader { r0 } else { r1 }, t: !is_leader, out: fe_mk(0) } } else {
+        let s = eval_state(m, r0, r1, input, betas, is_leader, prefix, n - 1);
+        let cw = gen_cw(m, r0, r1, input, betas, n - 1);
+        eval_level(xm_at(m, input.len() as int, n - 1), cm_at(m, input.len() as int, n - 1), vp_at(m, input.len() as int, n - 1), is_leader, s.key, s.t, cw.cw_seed, cw.cw_t0, cw.cw_t1, cw.cw_v, prefix[n - 1])
+    }
+}
+pub open spec fn is_prefix(prefix: Seq<bool>, input: Seq<bool>, n: int) -> bool { forall|i: int| 0 <= i < n ==> prefix[i] == input[i] }
+// IDPF CORRECTNESS (for the construction the per-level contracts specify): at every level n of every prefix, the two parties' output shares
+// sum to beta_{n-1} if the prefix is a prefix of the programmed input, and to zero otherwise
+proof fn theorem_idpf(m: Modes, r0: Seed16, r1: Seed16, input: Seq<bool>, betas: Seq<Fe>, prefix: Seq<bool>, n: int)
+    requires 0 <= n <= prefix.len(), n <= input.len(), betas.len() == input.len()
+    ensures ({
+        let l = eval_state(m, r0, r1, input, betas, true, prefix, n);
+        let h = eval_state(m, r0, r1, input, betas, false, prefix, n);
+        let g = gen_state(m, r0, r1, input, betas, n);
+        // on the path the parties hold exactly the generation state (control bits differ); off it they hold equal keys and control bits
+        &&& is_prefix(prefix, input, n) ==> l.key == g.k0 && h.key == g.k1 && l.t == g.t0 && h.t == g.t1 && l.t != h.t
+        &&& !is_prefix(prefix, input, n) ==> l.key == h.key && l.t == h.t
+        &&& n >= 1 ==> cong(fe_v(l.out) + fe_v(h.out), if is_prefix(prefix, input, n) { fe_v(betas[n - 1]) } else { 0 })
+    })
+    decreases n
+{
+    if n > 0 {
+        theorem_idpf(m, r0, r1, input, betas, prefix, n - 1);
+        let bits = input.len() as int;
+        let lp = eval_state(m, r0, r1, input, betas, true, prefix, n - 1);
+        let hp = eval_state(m, r0, r1, input, betas, false, prefix, n - 1);
+        let gp = gen_state(m, r0, r1, input, betas, n - 1);
+        let xm = xm_at(m, bits, n - 1); let cm = cm_at(m, bits, n - 1); let vp = vp_at(m, bits, n - 1);
+        let cw = gen_cw(m, r0, r1, input, betas, n - 1);
+        if is_prefix(prefix, input, n - 1) {
+            theorem_level(xm, cm, vp, gp.k0, gp.k1, gp.t0, gp.t1, input[n - 1], betas[n - 1], prefix[n - 1]);
+            if prefix[n - 1] == input[n - 1] { assert(is_prefix(prefix, input, n)); } else { assert(!is_prefix(prefix, input, n)); }
+        } else {
+            assert(!is_prefix(prefix, input, n));
+            theorem_level(xm, cm, vp, lp.key, hp.key, lp.t, hp.t, input[n - 1], betas[n - 1], prefix[n - 1]);
+            // instantiate the off-path clause at the real correction word
+            assert(eval_level(xm, cm, vp, true, lp.key, lp.t, cw.cw_seed, cw.cw_t0, cw.cw_t1, cw.cw_v, prefix[n - 1]) == eval_state(m, r0, r1, input, betas, true, prefix, n));
+        }
+    }
+}
+'''
+
+
+TREE_SHIMS = '''
+// ---- shims for the level loops of Idpf::gen_with_random / eval_from_node -------------------------------------------------------------------------
+pub enum VdafError { Idpf(IdpfError) }
+pub enum IdpfError { InvalidParameter(String) }
+#[verifier::external_body]
+fn fmt_opaque() -> String { String::new() }
+// IdpfInput: a bit string (bitvec storage not modelled: indexing and length only)
+#[verifier::external_body]
+pub struct IdpfInput { _b: u8 }
+impl IdpfInput {
+    pub uninterp spec fn bits(&self) -> Seq<bool>;
+    #[verifier::external_body]
+    fn len(&self) -> (r: usize) ensures r == self.bits().len() { unimplemented!() }
+    // Choice::from(input[level] as u8)
+    #[verifier::external_body]
+    fn bit_choice(&self, level: usize) -> (r: Choice) requires level < self.bits().len() ensures r.0 == self.bits()[level as int] { unimplemented!() }
+}
+// the XOF modes of a (ctx, nonce) pair: XofMode::Inner(&XofFixedKeyAes128Key::new(&[DOMAIN_SEP, ctx], nonce)) and XofMode::Leaf(ctx, nonce)
+pub uninterp spec fn mode_inner_spec(which: int, ctx: Seq<u8>, nonce: Seq<u8>) -> XofMode;     // which: 0 = extend, 1 = convert
+pub uninterp spec fn mode_leaf_spec(ctx: Seq<u8>, nonce: Seq<u8>) -> XofMode;
+#[verifier::external_body]
+fn mode_inner(which: u8, ctx: &[u8], nonce: &[u8]) -> (r: XofMode) ensures r == mode_inner_spec(which as int, ctx@, nonce@) { unimplemented!() }
+#[verifier::external_body]
+fn mode_leaf(ctx: &[u8], nonce: &[u8]) -> (r: XofMode) ensures r == mode_leaf_spec(ctx@, nonce@) { unimplemented!() }
+pub struct Idpf { pub inner_node_value_parameter: ValueParam, pub leaf_node_value_parameter: ValueParam }
+pub struct IdpfPublicShare { pub inner_correction_words: Vec<IdpfCorrectionWord>, pub leaf_correction_word: IdpfCorrectionWord }
+pub enum IdpfOutputShare { Inner(Fe), Leaf(Fe) }
+pub open spec fn modes_of(idpf: Idpf, ctx: Seq<u8>, nonce: Seq<u8>) -> Modes {
+    Modes { xi: mode_inner_spec(0, ctx, nonce), ci: mode_inner_spec(1, ctx, nonce), vi: idpf.inner_node_value_parameter,
+            xl: mode_leaf_spec(ctx, nonce), cl: mode_leaf_spec(ctx, nonce), vl: idpf.leaf_node_value_parameter }
+}
+pub open spec fn cw_matches(w: IdpfCorrectionWord, g: GenOut) -> bool { w.seed == g.cw_seed && w.control_bits[0].0 == g.cw_t0 && w.control_bits[1].0 == g.cw_t1 && w.value == g.cw_v }
+// the public share is the one key generation produces for (input, betas)
+pub open spec fn share_of(ps: IdpfPublicShare, m: Modes, r0: Seed16, r1: Seed16, input: Seq<bool>, betas: Seq<Fe>) -> bool {
+    &&& ps.inner_correction_words@.len() == input.len() - 1
+    &&& forall|l: int| 0 <= l < input.len() - 1 ==> cw_matches(#[trigger] ps.inner_correction_words@[l], gen_cw(m, r0, r1, input, betas, l))
+    &&& cw_matches(ps.leaf_correction_word, gen_cw(m, r0, r1, input, betas, input.len() - 1))
+}
+// the correction word of level l in a public share of `bits` levels
+pub open spec fn word_at(ps: IdpfPublicShare, l: int) -> IdpfCorrectionWord { if l < ps.inner_correction_words@.len() { ps.inner_correction_words@[l] } else { ps.leaf_correction_word } }
+// evaluation of one party along `prefix` from level `from` (holding key / control bit t there) down to level `to`
+pub open spec fn eval_from(m: Modes, ps: IdpfPublicShare, is_leader: bool, key: Seed16, t: bool, prefix: Seq<bool>, from: int, to: int) -> EvalOut decreases to - from
+{
+    if to <= from { EvalOut { key, t, out: fe_mk(0) } } else {
+        let s = eval_from(m, ps, is_leader, key, t, prefix, from, to - 1);
+        let w = word_at(ps, to - 1);
+        let bits = ps.inner_correction_words@.len() as int + 1;
+        eval_level(xm_at(m, bits, to - 1), cm_at(m, bits, to - 1), vp_at(m, bits, to - 1), is_leader, s.key, s.t, w.seed, w.control_bits[0].0, w.control_bits[1].0, w.value, prefix[to - 1])
+    }
+}
+// IdpfCache::insert: no effect on the evaluation (cache transparency is NOT decided: bitvec keys)
+#[verifier::external_body]
+pub struct Cache { _c: u8 }
+#[verifier::external_body]
+fn cache_insert(cache: &mut Cache, prefix: &IdpfInput, level: usize, key: &Seed16, control_bit: Choice) { unimplemented!() }
+'''
+
+
+END2END = '''
+// ---- gen_with_random + eval_from_node (from the root, both parties) meet the IDPF specification ---------------------------------------------------
+proof fn lemma_eval_from_is_state(m: Modes, ps: IdpfPublicShare, r0: Seed16, r1: Seed16, input: Seq<bool>, betas: Seq<Fe>, is_leader: bool, prefix: Seq<bool>, n: int)
+    requires share_of(ps, m, r0, r1, input, betas), input.len() >= 1, 0 <= n <= prefix.len(), n <= input.len()
+    ensures eval_from(m, ps, is_leader, if is_leader { r0 } else { r1 }, !is_leader, prefix, 0, n) == eval_state(m, r0, r1, input, betas, is_leader, prefix, n)
+    decreases n
+{
+    if n > 0 {
+        lemma_eval_from_is_state(m, ps, r0, r1, input, betas, is_leader, prefix, n - 1);
+        let w = word_at(ps, n - 1);
+        assert(cw_matches(w, gen_cw(m, r0, r1, input, betas, n - 1)));
+        assert(ps.inner_correction_words@.len() as int + 1 == input.len());
+    }
+}
+// what Idpf::gen_with_random hands out and what the two parties compute with Idpf::eval_from_node from their root keys:
+// the output shares at the last level of ANY prefix sum to the value programmed for that level if the prefix lies on the input's path, to zero otherwise
+proof fn theorem_idpf_end_to_end(m: Modes, ps: IdpfPublicShare, r0: Seed16, r1: Seed16, input: Seq<bool>, betas: Seq<Fe>, prefix: Seq<bool>)
+    requires share_of(ps, m, r0, r1, input, betas), betas.len() == input.len(), 1 <= prefix.len() <= input.len()
+    ensures ({
+        let n = prefix.len() as int;
+        let l = eval_from(m, ps, true, r0, false, prefix, 0, n);
+        let h = eval_from(m, ps, false, r1, true, prefix, 0, n);
+        cong(fe_v(l.out) + fe_v(h.out), if is_prefix(prefix, input, n) { fe_v(betas[n - 1]) } else { 0 })
+    })
+{
+    let n = prefix.len() as int;
+    lemma_eval_from_is_state(m, ps, r0, r1, input, betas, true, prefix, n);
+    lemma_eval_from_is_state(m, ps, r0, r1, input, betas, false, prefix, n);
+    theorem_idpf(m, r0, r1, input, betas, prefix, n);
+}
+'''
